@@ -27,7 +27,7 @@ META = {
     'quotas': {
         'quick': {'label:erroneous': 1000, 'erroneous:lexer-error': 100, 'erroneous:parser-error': 1000,
                   'erroneous-in-included-file': 100, 'erroneous:raised': 1000, 'x-delete': 70, 'x-truncate': 70,
-                  'via-from_mal_spec': 100},
+                  'via-from_mal_spec': 100, 'erroneous:compiled-twice': 300},
         'thorough': {'label:erroneous': 200000, 'erroneous:lexer-error': 10000, 'erroneous:parser-error': 100000,
                      'erroneous-in-included-file': 10000, 'erroneous:raised': 200000, 'x-delete': 3000, 'x-truncate': 3000,
                      'via-from_mal_spec': 10000},
@@ -37,7 +37,7 @@ CASES = {'quick': 5000, 'thorough': 400000}
 SECONDS = {'quick': 60, 'thorough': 600}
 
 
-def run_program(files, root, via_graph=False):
+def run_program(files, root, via_graph=False, repeat=0):
     """returns ('raised', exc type name) or ('returned', None)"""
     from maltoolbox.language.compiler import MalCompiler
     from maltoolbox.language import LanguageGraph
@@ -46,16 +46,25 @@ def run_program(files, root, via_graph=False):
         for n, t in files.items():
             with open(os.path.join(d, n), 'w', encoding='utf-8') as f:
                 f.write(t)
-        try:
-            if via_graph:
-                LanguageGraph.from_mal_spec(os.path.join(d, root))
+        outcome = None
+        for attempt in range(1 + max(0, repeat)):
+            # the same path compiled again (a new compiler object each time) must give the same verdict
+            try:
+                if via_graph:
+                    LanguageGraph.from_mal_spec(os.path.join(d, root))
+                else:
+                    MalCompiler().compile(os.path.join(d, root))
+            except RecursionError:
+                now = ('raised', 'RecursionError')
+            except Exception as exc:
+                now = ('raised', type(exc).__name__)
             else:
-                MalCompiler().compile(os.path.join(d, root))
-        except RecursionError:
-            return 'raised', 'RecursionError'
-        except Exception as exc:
-            return 'raised', type(exc).__name__
-        return 'returned', None
+                now = ('returned', None)
+            if outcome is None:
+                outcome = now
+            elif now[0] != outcome[0]:
+                return ('returned' if now[0] == 'returned' else outcome[0]), 'second-compile-of-the-same-path-%s' % now[0]
+        return outcome
     finally:
         shutil.rmtree(d, ignore_errors=True)
 
@@ -67,7 +76,9 @@ def check_program(files, root, mclass, where, res, via_graph=False, count=True):
         res.count('mutation:%s:%s' % (mclass, label))
     if label == 'unreadable':
         return None, label
-    outcome, exc = run_program(files, root, via_graph)
+    outcome, exc = run_program(files, root, via_graph, repeat=1 if (label == 'erroneous' and hash(mclass) % 3 == 0 or mclass in ('x-delete', 'delete', 'swap')) else 0)
+    if count and label == 'erroneous' and (mclass in ('x-delete', 'delete', 'swap')):
+        res.count('erroneous:compiled-twice')
     if count and via_graph:
         res.count('via-from_mal_spec')
     if label == 'erroneous':
@@ -81,6 +92,8 @@ def check_program(files, root, mclass, where, res, via_graph=False, count=True):
             res.count('erroneous:' + outcome)
         if outcome == 'returned':
             kind = 'lexer' if detail['lexer'] and not detail['parser'] else 'parser'
+            if exc and str(exc).startswith('second-compile'):
+                kind += ':on-recompile'
             return ('compiler:syntax-errors-not-raised:%s%s' % (kind, '' if where == root else ':in-included-file'),
                     'grammar reports %d lexer / %d parser errors (%s mutation in %s) but compilation returned a specification' % (
                         detail['lexer'], detail['parser'], mclass, where)), label
